@@ -324,6 +324,9 @@ func TestVxC02RoundTrip(t *testing.T) {
 			}
 			ch := &vxCh{c: c.Choices}
 			info := vxTypeInfo(c.Type, byte(c.Proto))
+			if err := vxCrossedTagsCheck(c, info, k); err != nil {
+				return err
+			}
 			var src interface{}
 			var srcT reflect.Type
 			if c.Value.Null && ch.next(2) == 0 {
@@ -407,6 +410,48 @@ func TestVxC02RoundTrip(t *testing.T) {
 	})
 }
 
+// vxCrossedTags: field Af is written to the UDT field Bf and the other way round.
+type vxCrossedTags struct {
+	Af interface{} `cql:"Bf"`
+	Bf interface{} `cql:"Af"`
+}
+
+// vxCrossedTagsCheck: a struct whose cql tags cross its field names - the tag decides which field a UDT field is
+// written from (UDT field names Af, Bf: quoted identifiers that equal the names of exported Go fields).
+func vxCrossedTagsCheck(c *vxValCase, info TypeInfo, k *vstats.Case) error {
+	if c.Type.Kind != cqlspec.UDT || len(c.Type.Names) != 2 || c.Type.Names[0] != "Af" || c.Type.Names[1] != "Bf" || c.Value.Null || len(c.Value.Elems) != 2 {
+		return nil
+	}
+	var vals [2]interface{}
+	for i := 0; i < 2; i++ {
+		if c.Value.Elems[i].Null {
+			continue
+		}
+		gt := vxPick(c.Type.Elems[i], []cqlspec.Value{c.Value.Elems[i]}, &vxCh{c: c.Choices}, vxSrc, false)
+		rv, err := vxToGo(c.Type.Elems[i], c.Value.Elems[i], gt, &vxCh{c: c.Choices})
+		if err != nil {
+			return nil
+		}
+		vals[i] = rv.Interface()
+	}
+	crossed := vxCrossedTags{Af: vals[1], Bf: vals[0]}
+	got, merr, pan := vxSafeMarshal(info, crossed)
+	if pan != nil {
+		return fmt.Errorf("Marshal(%v, struct with crossed tags) panicked: %v", c.Type, pan)
+	}
+	if merr != nil {
+		return nil
+	}
+	k.Class("udt from a struct whose tags cross its field names")
+	if want := cqlspec.Encode(c.Type, c.Value, c.Proto); !bytes.Equal(got, want) {
+		dv, derr := cqlspec.Decode(c.Type, got, c.Proto)
+		if derr != nil || !cqlspec.Equal(c.Type, vxCanon(c.Type, dv, c.Proto), vxCanon(c.Type, c.Value, c.Proto)) {
+			return fmt.Errorf("Marshal(%v, struct{Af `cql:\"Bf\"`; Bf `cql:\"Af\"`} holding for Af %+v and for Bf %+v) = %x, the specification's encoding is %x", c.Type, crossed.Bf, crossed.Af, got, want)
+		}
+	}
+	return nil
+}
+
 func vxDecodeInto(info TypeInfo, c *vxValCase, b []byte, holder reflect.Type, k *vstats.Case, ch *vxCh, tag string) error {
 	p := reflect.New(holder)
 	if c.Dirty != nil && vxValid(c.Type, *c.Dirty) && cqlspec.Encodable(c.Type, *c.Dirty, c.Proto) {
@@ -456,6 +501,9 @@ func TestVxC12Encode(t *testing.T) {
 			}
 			ch := &vxCh{c: c.Choices}
 			info := vxTypeInfo(c.Type, byte(c.Proto))
+			if err := vxCrossedTagsCheck(c, info, k); err != nil {
+				return err
+			}
 			var src interface{}
 			var srcT reflect.Type
 			if c.Value.Null && ch.next(2) == 0 {
